@@ -402,3 +402,130 @@ Example ex_pad : max_padding_tp 1400 false 1000 10 (Some (generate ex_oracle tru
 Proof. vm_compute. repeat split; reflexivity. Qed.
 Example ex_server : server_send (Some ex_orig) [2; 6] = (0, 0, false) /\ server_send (Some ex_orig) [2; 10; 6] = (2, 0, true).
 Proof. vm_compute. split; reflexivity. Qed.
+
+(* ------------------------------------------------------------------ TCP fragmentation *)
+
+Lemma frag_loop_spec mn k : 1 <= mn -> 1 <= k ->
+  forall fuel rem draws, (length rem <= fuel)%nat ->
+  concat (frag_loop fuel mn k rem draws) = rem /\
+  Forall (fun p => p <> [] /\ Z.of_nat (length p) <= mn + k - 1) (frag_loop fuel mn k rem draws) /\
+  (length (frag_loop fuel mn k rem draws) <= length rem)%nat.
+Proof.
+  intros Hmn Hk. induction fuel as [|f IH]; intros rem draws Hf.
+  - destruct rem; cbn [length] in Hf; [|lia]. cbn. repeat split; [constructor | lia].
+  - destruct rem as [|b rem']; [cbn; repeat split; [constructor | lia]|].
+    cbn [frag_loop]. set (rem := b :: rem') in *.
+    set (want := mn + hd 0 draws mod k).
+    set (take := Z.to_nat (Z.min want (Z.of_nat (length rem)))).
+    assert (Hw : mn <= want <= mn + k - 1).
+    { subst want. pose proof (Z.mod_pos_bound (hd 0 draws) k ltac:(lia)). lia. }
+    assert (Hl : (1 <= length rem)%nat) by (subst rem; cbn [length]; lia).
+    assert (Ht : (1 <= take <= length rem)%nat) by (subst take; lia).
+    assert (Htw : Z.of_nat take <= want) by (subst take; lia).
+    destruct (IH (skipn take rem) (tl draws)) as (Hc & Hall & Hlen).
+    { rewrite skipn_length. lia. }
+    cbn [concat length]. rewrite Hc, firstn_skipn. repeat split.
+    + constructor; [|exact Hall]. split.
+      * intros E. apply (f_equal (@length N)) in E. rewrite firstn_length in E. cbn [length] in E. lia.
+      * rewrite firstn_length. lia.
+    + rewrite skipn_length in Hlen. lia.
+Qed.
+
+Lemma sqrt_bounds n : 0 <= n -> 1 <= frag_min_len n /\ frag_min_len n <= frag_max_len n /\
+  (3 <= n -> frag_max_len n < n).
+Proof.
+  intros Hn. unfold frag_max_len, frag_min_len.
+  pose proof (Z.sqrt_spec n Hn) as Hs. cbv zeta in Hs. pose proof (Z.sqrt_nonneg n) as Hp.
+  repeat split; try lia.
+  intros H3. assert (Z.sqrt n + 1 < n) by nia.
+  assert (n / 2 < n) by (apply Z.div_lt_upper_bound; lia). lia.
+Qed.
+
+(* same bytes, non-empty pieces within [1, max(minLen, n/2)], at most n pieces: for every buffer and every draws *)
+Lemma tcp_fragment_plan_spec data draws :
+  let n := Z.of_nat (length data) in
+  concat (fragment_plan data draws) = data /\
+  Forall (fun p => p <> [] /\ 1 <= Z.of_nat (length p) <= frag_max_len n) (fragment_plan data draws) /\
+  (length (fragment_plan data draws) <= length data)%nat /\
+  (3 <= n -> (2 <= length (fragment_plan data draws))%nat).
+Proof.
+  cbv zeta. set (n := Z.of_nat (length data)).
+  destruct (sqrt_bounds n ltac:(lia)) as (H1 & H2 & H3).
+  unfold fragment_plan. fold n.
+  destruct (frag_loop_spec (frag_min_len n) (frag_max_len n - frag_min_len n + 1) H1 ltac:(lia)
+              (length data) data draws (le_n _)) as (Hc & Hall & Hlen).
+  set (plan := frag_loop _ _ _ _ _) in *.
+  assert (Hall' : Forall (fun p => p <> [] /\ 1 <= Z.of_nat (length p) <= frag_max_len n) plan).
+  { eapply Forall_impl; [|exact Hall]. cbv beta. intros p [Hne Hle]. split; [exact Hne|].
+    destruct p; [contradiction | cbn [length] in *; lia]. }
+  repeat split; try assumption.
+  intros Hn3. specialize (H3 Hn3).
+  destruct plan as [|p [|q r]]; cbn [length]; try lia.
+  - cbn in Hc. subst data. cbn in n. lia.
+  - cbn [concat] in Hc. rewrite app_nil_r in Hc. subst p.
+    inversion Hall' as [|? ? [_ Hb] _]. fold n in Hb. lia.
+Qed.
+
+Lemma tcp_fragment_same_bytes tp data draws :
+  concat (tcp_writes tp data draws) = data /\
+  (fragments_enabled tp = true -> Forall (fun p => p <> []) (tcp_writes tp data draws) /\
+                                  (length (tcp_writes tp data draws) <= length data)%nat).
+Proof.
+  unfold tcp_writes. pose proof (tcp_fragment_plan_spec data draws) as H. cbv zeta in H.
+  destruct H as (Hc & Hall & Hlen & _).
+  destruct (fragments_enabled tp).
+  - split; [exact Hc|]. intros _. split; [|exact Hlen].
+    eapply Forall_impl; [|exact Hall]. cbv beta. tauto.
+  - split; [cbn; apply app_nil_r | discriminate].
+Qed.
+
+Lemma tcp_fragment_honoured tp data draws :
+  let n := Z.of_nat (length data) in
+  (fragments_enabled tp = true ->
+     Forall (fun p => 1 <= Z.of_nat (length p) <= Z.max (Z.sqrt n + 1) (n / 2)) (tcp_writes tp data draws) /\
+     (3 <= n -> (2 <= length (tcp_writes tp data draws))%nat /\ Z.max (Z.sqrt n + 1) (n / 2) < n)) /\
+  (fragments_enabled tp = false -> tcp_writes tp data draws = [data]) /\
+  (fragments_enabled tp = true <-> sub (sub tp tp_tcp) tf_enable = Some true) /\
+  (forall d s, frag_sleep tp d = Some s ->
+     0 <= s <= getZ (sub (sub tp tp_tcp) tf_max_sleep) /\ 0 < getZ (sub (sub tp tp_tcp) tf_max_sleep)) /\
+  (getZ (sub (sub tp tp_tcp) tf_max_sleep) <= 0 -> forall d, frag_sleep tp d = None).
+Proof.
+  cbv zeta. unfold tcp_writes.
+  pose proof (tcp_fragment_plan_spec data draws) as H. cbv zeta in H.
+  destruct H as (_ & Hall & _ & H2).
+  set (ms := getZ (sub (sub tp tp_tcp) tf_max_sleep)).
+  split; [|split; [|split; [|split]]].
+  - intros He. rewrite He. split.
+    + eapply Forall_impl; [|exact Hall]. cbv beta. unfold frag_max_len, frag_min_len. tauto.
+    + intros H3. split; [apply H2; exact H3|].
+      destruct (sqrt_bounds (Z.of_nat (length data)) ltac:(lia)) as (_ & _ & Hb).
+      unfold frag_max_len, frag_min_len in Hb. apply Hb. exact H3.
+  - intros ->. reflexivity.
+  - unfold fragments_enabled. destruct (sub (sub tp tp_tcp) tf_enable) as [[|]|]; cbn [getB]; split; congruence.
+  - intros d s Hs. unfold frag_sleep in Hs. fold ms in Hs.
+    destruct (Z.ltb_spec 0 ms); [|discriminate]. inversion Hs.
+    pose proof (Z.mod_pos_bound d (ms + 1) ltac:(lia)). lia.
+  - intros Hle d. unfold frag_sleep. fold ms.
+    destruct (Z.ltb_spec 0 ms); [lia | reflexivity].
+Qed.
+
+(* the threshold 3 is exact: buffers of 1 or 2 bytes leave in one piece whatever is drawn *)
+Lemma tcp_fragment_small data draws :
+  (1 <= length data <= 2)%nat -> fragment_plan data draws = [data].
+Proof.
+  intros H. destruct data as [|a [|b [|c r]]]; cbn [length] in H; try lia.
+  - unfold fragment_plan. cbn [length frag_loop]. change (frag_min_len (Z.of_nat 1)) with 2.
+    change (frag_max_len (Z.of_nat 1) - 2 + 1) with 1. rewrite Z.mod_1_r. reflexivity.
+  - unfold fragment_plan. cbn [length frag_loop]. change (frag_min_len (Z.of_nat 2)) with 2.
+    change (frag_max_len (Z.of_nat 2) - 2 + 1) with 1. rewrite Z.mod_1_r. reflexivity.
+Qed.
+
+Definition ex_tp_frag : option pattern :=
+  Some {| tp_seed := None; tp_unlock := None; tp_tcp := Some {| tf_enable := Some true; tf_max_sleep := Some 5 |};
+          tp_nonce := None; tp_pad := None; tp_le := None |}.
+Example ex_fragments :
+  tcp_writes ex_tp_frag [1;2;3;4;5;6;7;8;9;10]%N [0; 7; 2] = [[1;2;3;4]; [5;6;7;8;9]; [10]]%N /\
+  tcp_writes None [1;2;3]%N [0] = [[1;2;3]]%N /\
+  tcp_writes ex_tp_frag [1;2;3]%N [] = [[1;2]; [3]]%N /\
+  frag_sleep ex_tp_frag 17 = Some 5 /\ frag_sleep None 17 = None.
+Proof. vm_compute. repeat split; reflexivity. Qed.
